@@ -531,6 +531,18 @@ class SequenceEncoder(AbstractItemEncoder):
             # records that differ in the components present do not compare
             return False
 
+    @staticmethod
+    def _isDefaultPy(pyObject, defaultValue):
+        # compare like with like: the value object the Python one stands for
+        from pyasn1.codec.native import decoder
+
+        try:
+            return decoder.decode(
+                pyObject, asn1Spec=defaultValue.clone()) == defaultValue
+
+        except error.PyAsn1Error:
+            return False
+
     # TODO: handling three flavors of input is too much -- split over codecs
 
     def encodeValue(self, value, asn1Spec, encodeFun, **options):
@@ -646,6 +658,12 @@ class SequenceEncoder(AbstractItemEncoder):
                     # compare like with like: any Python value the type
                     # accepts may spell the default (octets for a text string)
                     component = defaultValue.clone(component)
+
+                elif (namedType.isDefaulted and
+                        not isinstance(component, base.Asn1Item)):
+                    # a constructed default given as a Python value
+                    if self._isDefaultPy(component, defaultValue):
+                        continue
 
                 if namedType.isDefaulted and self._isDefault(component, namedType):
                     if LOG:
